@@ -30,6 +30,9 @@ ALSO = {
     "C16-readbytes-zero-length-eof": ["C20", "C01"], "C05-smpp-decode-coding-truncated-to-octet": [], "C14-batch-ascii-fastpath-no-boundary": ["C09", "C06"],
     "C06-gb18030-pooled-result": ["C12", "C13", "C05"], "C08-stream-encoder-pending-survives-reset": ["C05"], "C02-readtlvs-zero-length-last-dropped": ["C16", "C11"],
     "C11-readfixed-leading-nul-is-unset": ["C01", "C15", "C20"], "C09-validator-octet-walk-skips": ["C08"], "C03-receipt-lookup-in-lowered-copy": ["C18"],
+    "C19-period-cache-ignores-form": ["C13"], "C17-string-scratch-stale-units": ["C13"], "C15-respauth-append-into-caller-slice": ["C12"], "C04-frame-buffer-pool-not-reset-on-error": ["C13"],
+    "C07-smpp-fallback-keeps-requested-limits": ["C06", "C14"], "C20-small-read-scratch": ["C12"], "C01-dispatcher-shared-enquirelink": ["C10", "C13", "C12"], "C18-writer-exact-hint-no-copy": ["C12", "C01"],
+    "C10-writer-bytes-returns-pooled-buffer": ["C12", "C01", "C13"], "C12-stringer-truncates-in-place": ["C13"],
     "C12-reader-scratch-view": ["C13"], "C13-shared-sorter": ["C09"], "C07-total-from-size": ["C06"], "C03-cmpp20-dest-block-u8": ["C01"],
 }
 
